@@ -33,7 +33,7 @@ def build(ops):
 
 def task(W, payload):
     r = random.Random(f"C09:{payload['seed']}:{payload['index']}")
-    prog = Gen(r, Opts(max_strats=2, max_flows=5, n_requests=4)).program()
+    prog = Gen(r, Opts(max_strats=2, max_flows=5, n_requests=4, mixing_pair_bias=0.25)).program()
     out = mk_out(prog)
     ops = prog["build"]; params = prog["params"]
     pf = {k: float(Fr(v)) for k, v in params.items()}
@@ -77,7 +77,12 @@ def task(W, payload):
     for dyn in parts[:8]:
         I3 = build(ops)
         try:
-            runner = I3.model.get_runner(pf, dyn_params=list(dyn), jit=False, solver="euler")
+            # the values the runner is BUILT with for the run-time-supplied parameters are deliberately different from
+            # the values it is RUN with: a result that still reflects a build-time value of a dynamic parameter is wrong
+            base = dict(pf)
+            for k in dyn:
+                base[k] = pf[k] * 2.0 + 1.0
+            runner = I3.model.get_runner(base, dyn_params=list(dyn), jit=False, solver="euler")
             res = runner._run_func(parameters={k: pf[k] for k in dyn})
             got = {"outputs": np.asarray(res["outputs"]).tolist(), "derived": {k: np.asarray(v).tolist() for k, v in res["derived_outputs"].items()}}
         except BaseException as e:
